@@ -16,6 +16,7 @@ use std::sync::{Arc, Mutex};
 
 use hutil::{Args, Log, Rng, Stats};
 use ractor::concurrency::JoinHandle;
+use ractor::thread_local::{ThreadLocalActor, ThreadLocalActorSpawner};
 use ractor::{Actor, ActorCell, ActorId, ActorProcessingErr, ActorRef, SupervisionEvent};
 use tokio::sync::Semaphore;
 
@@ -71,6 +72,51 @@ impl Actor for Node {
     }
 }
 
+/// The same actor as a thread-local one (`spawn_local_linked`: linked BEFORE `pre_start`, which can
+/// be told to fail).  It lives on the spawner's own thread.
+#[derive(Default)]
+struct LNode;
+
+impl ThreadLocalActor for LNode {
+    type Msg = NodeMsg;
+    type State = Arc<Shared>;
+    type Arguments = (Arc<Shared>, bool);
+    async fn pre_start(&self, me: ActorRef<Self::Msg>, a: Self::Arguments) -> Result<Self::State, ActorProcessingErr> {
+        *a.0.cell.lock().unwrap() = Some(me.get_cell());
+        if a.1 {
+            return Err("scripted pre_start failure".into());
+        }
+        Ok(a.0)
+    }
+    async fn handle(&self, _me: ActorRef<Self::Msg>, m: Self::Msg, sh: &mut Self::State) -> Result<(), ActorProcessingErr> {
+        match m {
+            NodeMsg::Block => {
+                sh.in_handler.store(true, Ordering::SeqCst);
+                struct Leave<'a>(&'a AtomicBool);
+                impl Drop for Leave<'_> {
+                    fn drop(&mut self) {
+                        self.0.store(false, Ordering::SeqCst);
+                    }
+                }
+                let _leave = Leave(&sh.in_handler);
+                sh.gate.acquire().await.unwrap().forget();
+                sh.handled.fetch_add(1, Ordering::SeqCst);
+                Ok(())
+            }
+            NodeMsg::Fail => Err("scripted failure".into()),
+            NodeMsg::Panic => panic!("scripted panic"),
+        }
+    }
+    async fn handle_supervisor_evt(
+        &self,
+        _me: ActorRef<Self::Msg>,
+        _ev: SupervisionEvent,
+        _s: &mut Self::State,
+    ) -> Result<(), ActorProcessingErr> {
+        Ok(())
+    }
+}
+
 struct Rec {
     sh: Arc<Shared>,
     cell: ActorCell,
@@ -81,6 +127,7 @@ struct Rec {
 enum Op {
     Spawn,
     SpawnL(usize),
+    SpawnLT(usize, bool),
     Link(usize, usize),
     Unlink(usize, usize),
     Block(usize),
@@ -98,6 +145,7 @@ impl Op {
         match self {
             Op::Spawn => "spawn".into(),
             Op::SpawnL(p) => format!("spawnl {p}"),
+            Op::SpawnLT(p, f) => format!("spawnlt {p} {}", if *f { "fail" } else { "ok" }),
             Op::Link(c, p) => format!("link {c} {p}"),
             Op::Unlink(c, p) => format!("unlink {c} {p}"),
             Op::Block(a) => format!("block {a}"),
@@ -116,6 +164,7 @@ impl Op {
         Some(match *w.first()? {
             "spawn" => Op::Spawn,
             "spawnl" => Op::SpawnL(n(1)?),
+            "spawnlt" => Op::SpawnLT(n(1)?, w.get(2) == Some(&"fail")),
             "link" => Op::Link(n(1)?, n(2)?),
             "unlink" => Op::Unlink(n(1)?, n(2)?),
             "block" => Op::Block(n(1)?),
@@ -140,6 +189,8 @@ async fn quiesce() {
 struct World {
     nodes: Vec<Rec>,
     ids: HashMap<ActorId, usize>,
+    /// thread-local actors live on this spawner's thread (created on first use)
+    spawner: Option<ThreadLocalActorSpawner>,
 }
 
 impl World {
@@ -176,7 +227,7 @@ impl World {
         let ok = |a: &usize| *a < n;
         match op {
             Op::Spawn => true,
-            Op::SpawnL(p) => ok(p),
+            Op::SpawnL(p) | Op::SpawnLT(p, _) => ok(p),
             Op::Link(c, p) | Op::Unlink(c, p) => ok(c) && ok(p),
             Op::Release(a) => ok(a) && self.nodes[*a].sh.in_handler.load(Ordering::SeqCst),
             Op::Fail(a) | Op::Panic(a) => {
@@ -191,6 +242,32 @@ impl World {
 
     async fn exec(&mut self, op: &Op) -> String {
         let r = match op {
+            Op::SpawnLT(p, fail) => {
+                let sh = Arc::new(Shared {
+                    gate: Semaphore::new(0),
+                    in_handler: AtomicBool::new(false),
+                    handled: AtomicU64::new(0),
+                    cell: Mutex::new(None),
+                });
+                let spawner = self.spawner.get_or_insert_with(ThreadLocalActorSpawner::new).clone();
+                let res = self.nodes[*p].cell.spawn_local_linked::<LNode>(None, (sh.clone(), *fail), spawner).await;
+                let cell = sh.cell.lock().unwrap().clone();
+                match (res, cell) {
+                    (Ok((a, h)), _) => {
+                        let cell = a.get_cell();
+                        self.ids.insert(cell.get_id(), self.nodes.len());
+                        self.nodes.push(Rec { sh, cell, handle: Some(h) });
+                        "ok".to_string()
+                    }
+                    (Err(_), Some(cell)) => {
+                        // pre_start ran (and failed): the cell was seen by user code, watch it
+                        self.ids.insert(cell.get_id(), self.nodes.len());
+                        self.nodes.push(Rec { sh, cell, handle: None });
+                        "err".to_string()
+                    }
+                    (Err(_), None) => "err".to_string(), // refused before pre_start: nothing to observe
+                }
+            }
             Op::Spawn | Op::SpawnL(_) => {
                 let sh = Arc::new(Shared {
                     gate: Semaphore::new(0),
@@ -251,6 +328,25 @@ impl World {
             }
         };
         quiesce().await;
+        if self.spawner.is_some() {
+            // actors on the spawner's thread: wait (real time) until the picture stops changing
+            let mut last = self.snapshot(&r);
+            let mut stable = 0;
+            for _ in 0..400 {
+                tokio::time::sleep(std::time::Duration::from_millis(1)).await;
+                quiesce().await;
+                let now = self.snapshot(&r);
+                if now == last {
+                    stable += 1;
+                    if stable >= 4 {
+                        break;
+                    }
+                } else {
+                    stable = 0;
+                    last = now;
+                }
+            }
+        }
         self.snapshot(&r)
     }
 
@@ -268,7 +364,7 @@ impl World {
         d
     }
 
-    fn gen(&self, rng: &mut Rng) -> Op {
+    fn gen(&self, rng: &mut Rng, local: bool) -> Op {
         let n = self.nodes.len();
         if n == 0 {
             return Op::Spawn;
@@ -291,6 +387,8 @@ impl World {
                 let p = if rng.chance(1, 8) { any(rng) } else { pick_live(rng) };
                 if self.depth(p) >= 5 {
                     Op::Spawn
+                } else if local && rng.chance(1, 2) {
+                    Op::SpawnLT(p, rng.chance(1, 4))
                 } else {
                     Op::SpawnL(p)
                 }
@@ -335,7 +433,7 @@ enum Script {
 }
 
 async fn run_case(script: Script) -> Vec<(String, String)> {
-    let mut w = World { nodes: Vec::new(), ids: HashMap::new() };
+    let mut w = World { nodes: Vec::new(), ids: HashMap::new(), spawner: None };
     let mut out = Vec::new();
     match script {
         Script::Fixed(ops) => {
@@ -348,8 +446,11 @@ async fn run_case(script: Script) -> Vec<(String, String)> {
             }
         }
         Script::Random(n, mut rng) => {
+            // one case in eight also uses thread-local actors (they need real-time waits)
+            let local = rng.chance(1, 8);
+            let n = if local { n.min(12) } else { n };
             for _ in 0..n {
-                let op = w.gen(&mut rng);
+                let op = w.gen(&mut rng, local);
                 let o = w.exec(&op).await;
                 out.push((op.text(), o));
             }
@@ -361,6 +462,9 @@ async fn run_case(script: Script) -> Vec<(String, String)> {
         n.cell.kill();
     }
     quiesce().await;
+    if w.spawner.is_some() {
+        tokio::time::sleep(std::time::Duration::from_millis(3)).await;
+    }
     out
 }
 
@@ -390,6 +494,12 @@ fn fixed_cases() -> Vec<Vec<Op>> {
         // a child draining a backlog while its supervisor goes away (finding F1 on the pinned code)
         vec![Spawn, SpawnL(0), Block(1), Block(1), Drain(1), Kill(0), Release(1), Release(1)],
         vec![Spawn, SpawnL(0), SpawnL(1), Block(1), Drain(1), Stop(0), Release(1)],
+        // thread-local children: linked before pre_start
+        vec![Spawn, SpawnLT(0, false), SpawnLT(1, false), Kill(0)],
+        vec![Spawn, SpawnLT(0, true), SpawnLT(0, false), Stop(0)],
+        vec![Spawn, Block(0), Drain(0), SpawnLT(0, false), SpawnLT(0, true), Release(0)],
+        vec![Spawn, SpawnLT(0, false), SpawnL(1), Block(1), Drain(1), Kill(0), Release(1)],
+        vec![Spawn, SpawnLT(0, false), Block(1), Block(1), Stop(1), Kill(0)],
     ]
 }
 
